@@ -224,7 +224,7 @@ def c02_steps(case, check04=True, check06=True):
             exp = (Fr(a['x']) + Fr(b['x'])) / 2 - sg * (abs(dz) / Fr(M)) ** n / (2 * Fr(r))
         else:
             exp = (Fr(a['x']) + Fr(b['x'])) / 2
-        if abs(Fr(x) - exp) > (Fr(b['x']) - Fr(a['x'])) * Fr(1, 2 ** 30) + Fr(1, 2 ** 60):
+        if abs(Fr(x) - exp) > (Fr(b['x']) - Fr(a['x'])) * Fr(1, 2 ** 30) + abs(Fr(x)) * Fr(1, 2 ** 49) + Fr(1, 2 ** 60):
             fails.append('iteration %d: new point %r, decision rule gives %.17g' % (it + 2, x, float(exp))); break
         if not (a['x'] < x < b['x']):
             fails.append('new point not strictly inside'); break
